@@ -62,7 +62,7 @@ F_CHAIN = "join_impl/src/action_expr_chain/mod.rs"
 M_OF_COMB = "meaning_of_ctor(parse_table({c}).1)"
 
 
-MODULES = ["core", "optable", "entries", "gen", "guards", "names", "det", "builder"]
+MODULES = ["core", "optable", "entries", "gen", "guards", "names", "det", "builder", "parse"]
 
 
 def common_units():
@@ -464,6 +464,25 @@ def builder_units():
     return u
 
 
+def parse_units():
+    """parse/utils.rs::parse_until: what follows the scan loop (C02 wrapper legality, move/application type)"""
+    u = []
+    u.append(ty(F_UNIT, "Unit", subst=[{"find": "<T: Clone + Debug, N: Clone + Debug>", "replace": "<T, N>", "why": "derive bounds are irrelevant to the data layout"}]))
+    u.append(raw("prelude_syn", _read("prelude_syn.rs")))
+    u.append(raw("specs_parse", _read("specs_parse.rs")))
+    u.append({"kind": "exprs", "file": F_UTILS, "self_ty": "", "func": "parse_until", "what": "suffix_after_while", "name": "parse_until_suffix",
+              "params": "input: ParseStream<'_>, wrapper_determiner: &GroupDeterminer, next: Option<&GroupDeterminer>, deferred: bool, wrap_in: bool, tokens: TokenStream",
+              "fields": [{"name": "<T: Parse>", "ty": "UnitResult<T, ActionGroup>"}],
+              "subst": [{"find": "next.and_then(|group| {", "replace": "next.and_then(|group: &GroupDeterminer| -> (r: Option<ActionGroup>) ensures r == next_group(group.comb(), deferred, wrap), {", "why": "R7 closure contract"},
+                        {"find": ".map(|combinator| {", "replace": ".map(|combinator: Combinator| -> (r: ActionGroup) ensures r == mk_group(combinator, deferred, wrap), {", "why": "R7 closure contract"},
+                        {"find": "{\n    if let Some(group) = next {", "replace": "{\n    let mut wrap = wrap_in;\n    if let Some(group) = next {", "why": "`wrap` is a `let mut` of the dropped prefix (initialised to false there)"}],
+              "ensures": [
+                  # what the parser hands to the builder / generator for the NEXT action
+                  "r is Ok ==> match r->Ok_0.next { Some(g) => next is Some && next->0.comb() == Some(g.combinator) && group_wf(g) && (g.application_type == ApplicationType::Deferred) == deferred, None => next is None || next->0.comb() is None }",
+              ]})
+    return u
+
+
 def build_plan(repo, module):
     u = common_units()
     optargs = {}
@@ -478,6 +497,9 @@ def build_plan(repo, module):
         u.append(raw("lemma", _read("lemma_det.rs")))
     elif module == "names":
         u.append(raw("lemma", _read("lemma_names.rs")))
+    elif module == "parse":
+        u += _assume(core_units())
+        u += parse_units()
     elif module == "builder":
         u += _assume(core_units())
         u += builder_units()
@@ -505,7 +527,7 @@ OBLIGATIONS = {
             ("core", "ProcessExpr::replace_inner_exprs"), ("core", "ErrExpr::replace_inner_exprs"),
             ("core", "InitialExpr::replace_inner_exprs"), ("core", "ActionExpr::replace_inner_exprs"),
             ("gen", "JoinOutput::expand_process_expr"), ("gen", "JoinOutput::generate_def_and_step_streams")],
-    "C02": [("builder", "ActionExprChainBuilder::build_from_parse_stream"), ("gen", "JoinOutput::wrap_last_step_stream"), ("gen", "JoinOutput::process_step_action_expr"),
+    "C02": [("parse", "parse_until_suffix"), ("parse", "lemma_wrapper_frame"), ("builder", "ActionExprChainBuilder::build_from_parse_stream"), ("gen", "JoinOutput::wrap_last_step_stream"), ("gen", "JoinOutput::process_step_action_expr"),
             ("gen", "lemma_step_toks1"), ("core", "Combinator::can_be_wrapper"), ("core", "ActionGroup::to_wrapper_action_expr"),
             ("core", "ProcessExpr::replace_inner_exprs"), ("core", "ErrExpr::replace_inner_exprs"),
             ("core", "InitialExpr::replace_inner_exprs"), ("core", "ActionExpr::replace_inner_exprs"),
@@ -515,12 +537,12 @@ OBLIGATIONS = {
     "C07": [("entries", "lemma_entry_table")],
     "C13": [("guards", "new_guards"), ("gen", "JoinOutput::generate_handle")],
     "C12": [("builder", "ActionExprChainBuilder::build_from_parse_stream"), ("gen", "JoinOutput::branch_result_name"), ("gen", "JoinOutput::branch_result_pat")],
-    "C15": [("builder", "ActionExprChainBuilder::build_from_parse_stream"), ("builder", "ActionExprChain::append_member"),
+    "C15": [("parse", "parse_until_suffix"), ("builder", "ActionExprChainBuilder::build_from_parse_stream"), ("builder", "ActionExprChain::append_member"),
             ("builder", "lemma_append_facts"), ("builder", "lemma_balanced_depth"),
             ("gen", "JoinOutput::wrap_last_step_stream"), ("gen", "JoinOutput::process_step_action_expr"),
             ("gen", "JoinOutput::generate_def_and_step_streams"), ("gen", "JoinOutput::expand_process_expr"),
             ("core", "ProcessExpr::to_tokens")],
-    "C14": [("det", "lemma_first_match_is_longest"), ("optable", "lemma_operator_tables")],
+    "C14": [("parse", "parse_until_suffix"), ("det", "lemma_first_match_is_longest"), ("optable", "lemma_operator_tables")],
     "C16": [("guards", "new_init_lazy_branches"), ("guards", "new_init_transpose")],
     "C17": [("names", "lemma_names_never_clash"), ("names", "lemma_names_table"), ("names", "lemma_name3_injective"), ("names", "lemma_name1_injective"), ("names", "lemma_distinguishable"), ("names", "lemma_names_strlits"), ("gen", "JoinOutput::generate_def_and_step_streams")] + [("core", n) for n in ['construct_var_name', 'construct_step_results_name', 'construct_result_name', 'construct_thread_builder_name', 'construct_inspect_fn_name', 'construct_spawn_tokio_fn_name', 'construct_results_name', 'construct_handler_name', 'construct_internal_value_name', 'construct_thread_builder_fn_name', 'construct_expr_wrapper_name']],
     "C20": [("core", n) for n in ['construct_var_name', 'construct_step_results_name', 'construct_result_name', 'construct_thread_builder_name', 'construct_inspect_fn_name', 'construct_spawn_tokio_fn_name', 'construct_results_name', 'construct_handler_name', 'construct_internal_value_name', 'construct_thread_builder_fn_name', 'construct_expr_wrapper_name']],
